@@ -90,11 +90,15 @@ func (g *docGen) word() string {
 
 func (g *docGen) words(max int) string {
 	n := rapid.IntRange(1, max).Draw(g.t, "nwords")
-	w := make([]string, n)
-	for i := range w {
-		w[i] = g.word()
+	var b strings.Builder
+	for i := 0; i < n; i++ {
+		if i > 0 {
+			// mostly blanks; now and then a no-break or other Unicode space, as word processors and &nbsp; produce
+			b.WriteString(rapid.SampledFrom([]string{" ", " ", " ", " ", " ", " ", " ", " ", " ", " ", "\u00a0", "\u00a0", "\u202f", "\u3000", "\u00a0 ", " \u00a0"}).Draw(g.t, "wordsep"))
+		}
+		b.WriteString(g.word())
 	}
-	return strings.Join(w, " ")
+	return b.String()
 }
 
 // ---------------------------------------------------------------- HTML
@@ -362,7 +366,10 @@ func GenGemtext(t *rapid.T, next *int) Doc {
 		case 6:
 			lines = append(lines, "> "+g.words(10))
 		case 7:
-			lines = append(lines, "```", g.words(6), "  "+g.words(3), "```")
+			lines = append(lines, rapid.SampledFrom([]string{"```", "```", "```go", "``` alt text"}).Draw(t, "fence"), g.words(6), "  "+g.words(3))
+			if !(i == n-1 && rapid.Bool().Draw(t, "unclosedfence")) {
+				lines = append(lines, "```") // the last block may stay open: the end of the document closes it
+			}
 		default:
 			lines = append(lines, "")
 		}
